@@ -15,6 +15,8 @@ MODULES = {
     "C02": "c01_odegen",
     "C03": "c01_odegen",
     "C04": "c01_odegen",
+    "C06": "c06_rates",
+    "C13": "c13_modifiers",
     "C14": "c14_network",
     "C15": "c14_network",
     "C17": "c17_globals",
